@@ -120,20 +120,30 @@ Proof. exists []. cbn. repeat split; lia. Qed.
 (** size agreement of the hand-written emitters (estimate of pass 1 = bytes of codegen) *)
 Lemma size_jmp_short16 rel : -126 <= rel <= 129 -> zlen (gen_jmp M16 rel) = estimate_jump "JMP" M16.
 Proof.
-  intros H. unfold gen_jmp, offset_size.
+  intros H. unfold gen_jmp, jump_form, offset_size.
   replace ((-128 <=? rel - 2) && (rel - 2 <=? 127)) with true by (symmetry; apply andb_true_intro; split; apply Z.leb_le; lia). reflexivity.
 Qed.
-Lemma size_jcc_short16 opc rel name : -126 <= rel <= 129 -> name <> "CALL"%string -> zlen (gen_jcc opc rel) = estimate_jump name M16.
+Lemma size_jcc_short16 opc rel name : -126 <= rel <= 129 -> name <> "CALL"%string -> zlen (gen_jcc M16 opc rel) = estimate_jump name M16.
 Proof.
-  intros H Hn. unfold gen_jcc, offset_size, estimate_jump.
+  intros H Hn. unfold gen_jcc, jump_form, offset_size, estimate_jump.
   replace ((-128 <=? rel - 2) && (rel - 2 <=? 127)) with true by (symmetry; apply andb_true_intro; split; apply Z.leb_le; lia).
   apply String.eqb_neq in Hn. rewrite Hn. reflexivity.
 Qed.
-Lemma size_call16 rel : -32768 <= rel - 5 <= 32767 -> zlen (gen_call rel) = estimate_jump "CALL" M16.
+Lemma size_call16 rel : -32768 <= rel - 3 <= 32767 -> zlen (gen_call M16 rel) = estimate_jump "CALL" M16.
 Proof.
   intros H. unfold gen_call.
-  replace ((-32768 <=? rel - 5) && (rel - 5 <=? 32767)) with true by (symmetry; apply andb_true_intro; split; apply Z.leb_le; lia).
+  replace ((-32768 <=? rel - 3) && (rel - 3 <=? 32767)) with true by (symmetry; apply andb_true_intro; split; apply Z.leb_le; lia).
   unfold zlen. cbn [Datatypes.length]. rewrite le_length. reflexivity.
+Qed.
+(* 32-bit mode: the rel32 forms have exactly the sizes pass 1 reserves, for EVERY distance (since the fix in /repo) *)
+Lemma size_jmp32 rel : zlen (gen_jmp M32 rel) = estimate_jump "JMP" M32.
+Proof. unfold gen_jmp, jump_form, zlen. cbn [Datatypes.length]. rewrite le_length. reflexivity. Qed.
+Lemma size_call32 rel : zlen (gen_call M32 rel) = estimate_jump "CALL" M32.
+Proof. unfold gen_call, zlen. cbn [Datatypes.length]. rewrite le_length. reflexivity. Qed.
+Lemma size_jcc32 opc rel name : name <> "JMP"%string -> name <> "CALL"%string -> zlen (gen_jcc M32 opc rel) = estimate_jump name M32.
+Proof.
+  intros H1 H2. unfold gen_jcc, jump_form, estimate_jump, zlen. cbn [Datatypes.length]. rewrite le_length.
+  apply String.eqb_neq in H1. apply String.eqb_neq in H2. rewrite H1, H2. reflexivity.
 Qed.
 (* the disagreement behind finding C04-bits16-forward-beyond-short / C03 drift *)
 Lemma size_jmp16_refuted : exists rel, zlen (gen_jmp M16 rel) <> estimate_jump "JMP" M16.
